@@ -50,7 +50,7 @@ class SeismicFileConverter(object):
         self.check_input_file_exists()
 
         self.geom = None
-        if all([min_il, max_il, min_xl, max_xl]):
+        if None not in (min_il, max_il, min_xl, max_xl):
             self.geom = Geometry3d(min_il, max_il, min_xl, max_xl)
         if self.geom is None:
             with SeismicFile.open(self.in_filename, self.filetype) as seismic:
@@ -73,6 +73,9 @@ class SeismicFileConverter(object):
     def get_blank_header_info(self, seismic, header_detection):
         first_il_header_val = seismic.header[0][segyio.tracefield.TraceField.INLINE_3D]
         n_traces = seismic.tracecount if seismic.structured or first_il_header_val == 0 else 0
+        if isinstance(self.geom, Geometry3d) and not isinstance(self.geom, InferredGeometry3d):
+            # One header value per trace of the (possibly windowed) output grid
+            n_traces = len(self.geom.ilines) * len(self.geom.xlines)
         if header_detection == 'heuristic':
             return HeaderwordInfo(n_traces=n_traces,
                                   seismicfile=seismic,
